@@ -46,8 +46,12 @@ def attribute(op, conjunct):
     props = set(OP_PROPS.get(op, ()))
     if conjunct == "frame":
         return {"C19"}
+    if conjunct == "othersViews":
+        return {"C19", "C01"}
     if conjunct in ("views", "rect"):
-        return {"C01"}
+        # the container's access paths disagree right after `op` (an object is reported once, at the step that broke it):
+        # a matter of the container property, and of the property that says what `op` leaves behind
+        return {"C01"} | (props - {"C19"})
     if conjunct in ("recvState", "allowed") and op in READ_ONLY:
         props.add("C19")
     if conjunct == "noPanic":
@@ -749,7 +753,22 @@ def _c08(work, v, tier, seed):
     if "Termination was violated" not in r.out:
         raise vf.ToolingError("sanity: the model of the pinned protocol should violate Termination")
     # 2. relations between calls on transformed alignments, thread counts (functional half)
-    trace = vf.drive(work, "dist", n=250 if q else 4000, seed=seed, tier=tier)
+    #    ... on random alignments, and on the cases TLC generates for C07 (exactly saturated pairs, every gap-counting mode,
+    #    single-kind rows): each with one relation in turn and always the row permutation
+    cfg = write_cfg(work, "Gen_Dist_rel_%s.cfg" % tier, spec=None, invariants=["Emit"], constants={"Scope": "quick" if q else "full"})
+    cases, ncases, r = vf.tlc_gen(work, "Gen_Dist", cfg, workers=8)
+    if ncases == 0:
+        raise vf.ToolingError("Gen_Dist produced no case")
+    v.add_mc(r, "gen:Dist")
+    step = 6 if q else 2          # a sample of the generated cases (coprime with the six relations' rotation is not needed: ids rotate)
+    sub = work.fresh("relcases", ".ndjson")
+    with open(sub, "w") as f:
+        for k, line in enumerate(open(cases)):
+            c = json.loads(line)
+            # (all-gaps counting: the mode that must NOT depend on column order, unlike its exempt neighbour - always taken)
+            if k % step == (seed % step) or (c["o"]["model"] in ("pdist", "rawdist") and c["o"]["gapmode"] == 2 and c["r"][0] < 0):
+                f.write(line)
+    trace = vf.drive(work, "dist", cases=sub, n=250 if q else 4000, seed=seed, tier=tier, extra="rel=1", timeout=3000)
     res = vf.tlc_trace(work, "Trace_Dist", trace, cfg=write_cfg(work, "Trace_Dist.cfg", invariants=["Done"]))
     dist_account(v, trace, res, "C08")
     # 3. caller-supplied models failing at the k-th evaluation / row request: the call returns, with the error
